@@ -137,6 +137,12 @@ def law_case(draw, tier):
         rv = canon.table_column(case["R"], case["R"]["attr"])["values"]
         if case["measure"] == "OVERLAP":
             case["threshold2"] = draw(gen.overlap_threshold(case["tok"], lv, rv))
+            # overlap thresholds need not be integral (any positive number is accepted)
+            frac = draw(st.sampled_from([0, 0, 0.5, 0.25]))
+            if frac:
+                case["threshold"] = case["threshold"] - frac
+                if draw(st.booleans()):
+                    case["threshold2"] = case["threshold2"] + 0.5
         else:
             case["threshold2"] = draw(gen.sim_threshold(case["measure"], case["tok"], lv, rv))
     case["l_out"] = None
@@ -293,8 +299,8 @@ def bundled_cases(tier):
             for tok in (toks if tier == "thorough" else toks[:1]):
                 for lax, strict in sims:
                     yield {"data": data, "measure": m, "tok": tok, "lax": lax, "strict": strict}
-        for lax, strict in ([(2, 4), (3, 6)] if tier == "quick" else [(1, 2), (2, 4), (3, 6),
-                                                                      (5, 9)]):
+        for lax, strict in ([(2, 4), (3, 6), (2.5, 3.5)] if tier == "quick" else
+                            [(1, 2), (2, 4), (3, 6), (5, 9), (2.5, 3.5), (0.5, 1.5)]):
             yield {"data": data, "measure": "OVERLAP", "tok": toks[0], "lax": lax,
                    "strict": strict}
         for lax, strict in ([(3, 1), (2.5, 1.5)] if tier == "quick" else
